@@ -4,6 +4,14 @@ import vlib
 from props import aml_common as ac
 
 
+def q8(g):
+    """a QWord address space descriptor (46 bytes): 1425 of them carry a template's payload past 65535 bytes"""
+    d = g.descriptor("AddrSpace")
+    while d["w"] != 8:
+        d = g.descriptor("AddrSpace")
+    return d
+
+
 def run(ctx):
     rng = vlib.Rng(ctx.seed)
     th = ctx.thorough()
@@ -25,6 +33,9 @@ def run(ctx):
         g = amlgen.G(rng)
         progs.append(amlgen.prog(g, g.template(n), tag="template/%d" % n))
         progs.append(amlgen.prog(g, {"t": "Name", "path": g.path(), "v": g.template(n)}, tag="named_template/%d" % n))
+    for n in (1425, 1500):
+        g = amlgen.G(rng)
+        progs.append(amlgen.prog(g, {"t": "ResourceTemplate", "ch": [q8(g) for _ in range(n)]}, tag="template/%d" % n))
     ctx.samples = [progs[0], progs[len(progs) // 2], progs[-1]]
     ctx.distinct = ac.distinct(progs)
     ac.mc_corpus(ctx, progs if th else progs[::4], pieces=12)
